@@ -325,14 +325,25 @@ def run(ctx) -> None:
         sw = ctx.repo.method('SUTRAWellBores', 'Calculate', 'geophires_x/SUTRAWellBores.py')
         signed = ('prodwellflowrates', 'injwellflowrates')
         n7 = 0
-        for st in ast.walk(sw.node):
+        # (function, names that hold a signed profile there, whether every assignment counts): the method itself, and module helpers
+        # a signed profile is handed to (there the parameter is the signed name and the whole body is pressure-drop arithmetic)
+        scopes = [(sw, signed, False)]
+        for c in calls_in(sw.node):
+            g = sw.module.functions.get(dotted_name(c.func) or '')
+            if g is None:
+                continue
+            pn = tuple(g.args[i] for i, a_ in enumerate(c.args) if isinstance(a_, ast.Name) and a_.id in signed and i < len(g.args))
+            if pn and not any(s_[0] is g for s_ in scopes):
+                scopes.append((g, pn, True))
+        for fn7, signed7, every in scopes:
+          for st in ast.walk(fn7.node):
             if not isinstance(st, ast.Assign):
                 continue
             tgt = norm(st.targets[0])
-            if not (tgt.startswith(('v', 'Re', 'DP', 'self.DP', 'self.PumpingPower'))):
+            if not every and not (tgt.startswith(('v', 'Re', 'DP', 'self.DP', 'self.PumpingPower'))):
                 continue
             for x in ast.walk(st.value):
-                if isinstance(x, ast.Name) and x.id in signed:
+                if isinstance(x, ast.Name) and x.id in signed7:
                     n7 += 1
                     p = parent(x)
                     ok = False
@@ -343,10 +354,10 @@ def run(ctx) -> None:
                                 isinstance(p.right.value, int) and p.right.value % 2 == 0:
                             ok = True
                         p = parent(p)
-                    ctx.check(ok, 'Z7', f'SUTRAWellBores.Calculate/{tgt}/{x.id}-unsigned', f'{sw.module.rel}:{st.lineno}',
+                    ctx.check(ok, 'Z7', f'{fn7.qualname}/{tgt}/{x.id}-unsigned', f'{sw.module.rel}:{st.lineno}',
                               f'`{norm(st)[:100]}` uses the signed flow profile {x.id} without abs(): while the storage is charged the flow is '
                               f'negative, the pressure drop and with it the pumping power become negative', fact='abs() / even power')
-        ctx.floor('Z7', n7, 5, 'uses of the signed flow profiles in pressure-drop and power expressions')
+        ctx.floor('Z7', n7, 3, 'uses of the signed flow profiles in pressure-drop and power expressions')          # (a shared helper halves the copies)
     ctx.undecided('monotonicity of the Colebrook friction loss in the diameter (numeric)', 'SBT/AGS hydraulic models',
                   'values of water properties')
     ctx.assume('overpressure percentage >= 100 and depletion rate > 0 (declared ranges) give overpressure >= 0 and a positive step count')
